@@ -50,3 +50,161 @@ void harness(void) {
 	if (res == KSI_OUT_OF_MEMORY) REACH("append: allocation failed");
 }
 #endif
+
+/* ------------------------------------------------------------------------------------------------------------
+ * Plain-mode (no dfcc) obligations with the COMPLETE array view, bounded: capacity <= LIST_HARNESS_MAX.
+ * The list is a heap object in an arbitrary state satisfying LIST_INV, wired exactly as KSI_List_new wires it;
+ * the public KSI_List_* wrappers are called (so the dispatch through the function-pointer members is covered).
+ * Every harness ends with KSI_List_free and runs under --memory-leak-check: whatever the operation allocated
+ * (and the array it replaced) must have been released exactly once. */
+#define VIEW_MAX (LIST_HARNESS_MAX + 1)
+static KSI_List *b_lst; static struct listImpl_st *b_impl;
+static void *b_before[VIEW_MAX]; static size_t b_len, b_cap;
+static int b_build(void) {
+	size_t i;
+	b_cap = nondet_size(); b_len = nondet_size();
+	if (b_cap > LIST_HARNESS_MAX || b_len > b_cap) return 0;
+	b_lst = malloc(sizeof(struct KSI_List_st)); b_impl = malloc(sizeof(struct listImpl_st));
+	if (b_lst == NULL || b_impl == NULL) { free(b_lst); free(b_impl); return 0; }
+	b_impl->arr = NULL;
+	if (b_cap == 1) b_impl->arr = malloc(1 * sizeof(struct listEl_st));
+	if (b_cap == 2) b_impl->arr = malloc(2 * sizeof(struct listEl_st));
+	if (b_cap == 3) b_impl->arr = malloc(3 * sizeof(struct listEl_st));
+	if (b_cap == 4) b_impl->arr = malloc(4 * sizeof(struct listEl_st));
+	if (b_cap != 0 && b_impl->arr == NULL) { free(b_lst); free(b_impl); return 0; }
+	b_impl->arr_size = b_cap; b_impl->arr_len = b_len;
+	for (i = 0; i < b_len; i++) { b_impl->arr[i].ptr = nondet_ptr(); b_impl->arr[i].initialIdx = 0; b_impl->arr[i].cmp = NULL; b_before[i] = b_impl->arr[i].ptr; }
+	b_lst->pImpl = b_impl;
+	b_lst->obj_free = nondet_bool() ? list_stub_free : NULL;
+	b_lst->append = appendElement; b_lst->indexOf = indexOf; b_lst->replaceAt = replaceElementAt; b_lst->insertAt = insertElementAt;
+	b_lst->elementAt = elementAt; b_lst->length = length; b_lst->removeElement = removeElement; b_lst->sort = KSI_List_sort;
+	b_lst->foldl = KSI_List_foldl; b_lst->find = find;
+	g_lfree_calls = 0; g_lfree_last = NULL;
+	return 1;
+}
+static int b_inv(void) { return b_lst->pImpl == b_impl && b_impl->arr_len <= b_impl->arr_size && ((b_impl->arr_size == 0) == (b_impl->arr == NULL)); }
+/* the view is unchanged (same length, same elements, same array) */
+static int b_same(struct listEl_st *arr0) {
+	size_t i; int ok = b_inv() && b_impl->arr_len == b_len && b_impl->arr_size == b_cap && b_impl->arr == arr0;
+	for (i = 0; i < b_len; i++) ok = ok && b_impl->arr[i].ptr == b_before[i];
+	return ok;
+}
+static void b_finish(size_t expect_len) {
+	unsigned calls0 = g_lfree_calls; int counted = b_lst->obj_free != NULL;
+	KSI_List_free(b_lst);
+	__CPROVER_assert(!counted || g_lfree_calls == calls0 + expect_len, "free: the element destructor is called once per element of the view");
+}
+
+#ifdef H_b_append
+void harness(void) {
+	void *obj = nondet_ptr(); struct listEl_st *arr0; size_t i; int res;
+	if (!b_build()) return;
+	arr0 = b_impl->arr;
+	res = KSI_List_append(b_lst, obj);
+	REACH("append returns");
+	__CPROVER_assert(res == KSI_OK || (res == KSI_OUT_OF_MEMORY && b_len == b_cap), "append: OK, or out of memory only when the array had to grow");
+	if (res == KSI_OK) {
+		__CPROVER_assert(b_inv() && b_impl->arr_len == b_len + 1, "append ok: invariant, one element more");
+		__CPROVER_assert(b_impl->arr[b_len].ptr == obj, "append ok: the new element is last");
+		for (i = 0; i < b_len; i++) __CPROVER_assert(b_impl->arr[i].ptr == b_before[i], "append ok: every old element keeps its place");
+		__CPROVER_assert(b_len == b_cap ? (b_impl->arr_size == b_cap + 10 && b_impl->arr != arr0) : (b_impl->arr_size == b_cap && b_impl->arr == arr0), "append ok: grows by 10 slots exactly when full");
+		__CPROVER_assert(g_lfree_calls == 0, "append: no element is destroyed");
+		if (b_len == b_cap && b_len > 0) REACH("append grew a non-empty array");
+		b_finish(b_len + 1);
+	} else {
+		__CPROVER_assert(b_same(arr0), "append failed: the list is exactly as before and valid");
+		REACH("append: allocation failed");
+		b_finish(b_len);
+	}
+}
+#endif
+
+#ifdef H_b_remove
+void harness(void) {
+	size_t pos = nondet_size(), i; void *out = &g_lw, *out0 = out; int want_out = nondet_bool(); struct listEl_st *arr0; int res;
+	if (!b_build()) return;
+	arr0 = b_impl->arr;
+	res = KSI_List_remove(b_lst, pos, want_out ? &out : NULL);
+	REACH("remove returns");
+	__CPROVER_assert((res == KSI_OK) == (pos < b_len), "remove: succeeds exactly for a position inside the view");
+	if (res == KSI_OK) {
+		__CPROVER_assert(b_inv() && b_impl->arr_len == b_len - 1 && b_impl->arr == arr0 && b_impl->arr_size == b_cap, "remove ok: one element less, same array");
+		for (i = 0; i < b_len - 1; i++) __CPROVER_assert(b_impl->arr[i].ptr == b_before[i < pos ? i : i + 1], "remove ok: elements before pos stay, the tail moves down by one");
+		if (want_out) __CPROVER_assert(out == b_before[pos] && g_lfree_calls == 0, "remove ok: the element is handed to the caller, not destroyed");
+		else __CPROVER_assert(b_lst->obj_free == NULL || (g_lfree_calls == 1 && g_lfree_last == b_before[pos]), "remove ok: without receiver the element is destroyed exactly once");
+		if (pos + 1 < b_len) REACH("removed from the middle");
+		b_finish(b_len - 1);
+	} else {
+		__CPROVER_assert(b_same(arr0) && out == out0 && g_lfree_calls == 0, "remove failed: nothing changed");
+		b_finish(b_len);
+	}
+}
+#endif
+
+#ifdef H_b_insert
+void harness(void) {
+	size_t pos = nondet_size(), i; void *obj = nondet_ptr(); struct listEl_st *arr0; int res;
+	if (!b_build()) return;
+	arr0 = b_impl->arr;
+	res = KSI_List_insertAt(b_lst, pos, obj);
+	REACH("insertAt returns");
+	__CPROVER_assert(IMPLIES(res == KSI_OK, pos < b_len), "insertAt: only positions inside the view are accepted");
+	__CPROVER_assert(IMPLIES(pos < b_len, res == KSI_OK || (res == KSI_OUT_OF_MEMORY && b_len == b_cap)), "insertAt: inside the view it fails only for lack of memory when full");
+	if (res == KSI_OK) {
+		__CPROVER_assert(b_inv() && b_impl->arr_len == b_len + 1, "insertAt ok: one element more");
+		for (i = 0; i < b_len + 1; i++) __CPROVER_assert(b_impl->arr[i].ptr == (i < pos ? b_before[i] : (i == pos ? obj : b_before[i - 1])), "insertAt ok: prefix stays, new element at pos, tail moves up by one");
+		__CPROVER_assert(g_lfree_calls == 0, "insertAt: no element is destroyed");
+		if (b_len == b_cap && pos + 1 < b_len) REACH("inserted into the middle of a full array");
+		b_finish(b_len + 1);
+	} else {
+		__CPROVER_assert(b_same(arr0) && g_lfree_calls == 0, "insertAt failed: the list is exactly as before");
+		b_finish(b_len);
+	}
+}
+#endif
+
+#ifdef H_b_replace_elementat
+void harness(void) {
+	size_t pos = nondet_size(), i; void *obj = nondet_ptr(); void *out = &g_lw, *out0 = out; struct listEl_st *arr0; int res;
+	if (!b_build()) return;
+	arr0 = b_impl->arr;
+	__CPROVER_assert(KSI_List_length(b_lst) == b_len, "length: number of elements of the view");
+	res = KSI_List_elementAt(b_lst, pos, &out);
+	__CPROVER_assert((res == KSI_OK) == (pos < b_len), "elementAt: succeeds exactly inside the view");
+	__CPROVER_assert(res == KSI_OK ? out == b_before[pos] : out == out0, "elementAt: the pos-th element, receiver untouched on failure");
+	__CPROVER_assert(b_same(arr0) && g_lfree_calls == 0, "elementAt: the list is not changed");
+	res = KSI_List_replaceAt(b_lst, pos, obj);
+	REACH("replaceAt returns");
+	__CPROVER_assert((res == KSI_OK) == (pos < b_len), "replaceAt: succeeds exactly inside the view");
+	if (res == KSI_OK) {
+		__CPROVER_assert(b_inv() && b_impl->arr_len == b_len && b_impl->arr == arr0, "replaceAt ok: same length, same array");
+		for (i = 0; i < b_len; i++) __CPROVER_assert(b_impl->arr[i].ptr == (i == pos ? obj : b_before[i]), "replaceAt ok: only the element at pos changes");
+		__CPROVER_assert(b_lst->obj_free == NULL || (g_lfree_calls == 1 && g_lfree_last == b_before[pos]), "replaceAt ok: the old element is destroyed exactly once");
+		REACH("replaced");
+	} else {
+		__CPROVER_assert(b_same(arr0) && g_lfree_calls == 0, "replaceAt failed: nothing changed");
+	}
+	b_finish(b_len);
+}
+#endif
+
+#ifdef H_b_new_free
+void harness(void) {
+	KSI_List *l = (KSI_List *)&g_lw, *l0 = l; void *e = nondet_ptr(); int res;
+	g_lfree_calls = 0;
+	res = KSI_List_new(nondet_bool() ? list_stub_free : NULL, &l);
+	REACH("new returns");
+	__CPROVER_assert(res == KSI_OK || res == KSI_OUT_OF_MEMORY, "new: OK or out of memory");
+	if (res != KSI_OK) { __CPROVER_assert(l == l0, "new failed: receiver untouched"); REACH("new: allocation failed"); return; }
+	__CPROVER_assert(l != NULL && l != l0 && l->pImpl != NULL, "new ok: a list object");
+	__CPROVER_assert(L_LEN(l) == 0 && L_SIZE(l) == 0 && L_ARR(l) == NULL, "new ok: empty view, invariant holds");
+	__CPROVER_assert(l->append == appendElement && l->removeElement == removeElement && l->insertAt == insertElementAt && l->replaceAt == replaceElementAt &&
+			l->elementAt == elementAt && l->length == length && l->indexOf == indexOf && l->find == find && l->sort == KSI_List_sort && l->foldl == KSI_List_foldl,
+			"new ok: every operation is wired");
+	__CPROVER_assert(KSI_List_length(l) == 0, "new ok: length 0");
+	res = KSI_List_append(l, e);
+	if (res == KSI_OK) { void *o = NULL; __CPROVER_assert(KSI_List_length(l) == 1 && KSI_List_elementAt(l, 0, &o) == KSI_OK && o == e, "first append: one element, it is the appended one"); REACH("first element appended"); }
+	else __CPROVER_assert(res == KSI_OUT_OF_MEMORY && KSI_List_length(l) == 0, "first append failed: still empty");
+	KSI_List_free(l);
+}
+#endif
